@@ -1,4 +1,5 @@
 import Gsp.Model.Mz
+import Gsp.Model.Ctx
 /-! Safe mode (Go: Merklizer.safeMode default true, WithSafeMode, newJSONLDOptions). The dropping of undefined
     properties itself happens inside json-gold; the model states what the repository adds (the default and the
     plumbing) and the specification the combination must meet. -/
@@ -20,5 +21,15 @@ def applyOpts (opts : List (Option Bool)) : Bool :=
 
 def merklize (canon : String → Option String) (h : Hasher) (safe : Bool) (d : Doc) : Except String Mz.Merklizer :=
   if safe && d.undefined > 0 then .error "safe-mode" else Mz.merklize canon h d.quads
+
+/-- the abstract document seen through its contexts: `undefined` is not told but computed - the properties that
+    expansion under the schema's contexts leaves out (`Ctx.undefinedProps`) -/
+def topOf (s : Ctx.Schema) : Ctx.Active := (Ctx.termsOf s s.top).getD []
+
+def undefinedOf (s : Ctx.Schema) (fuel : Nat) (doc : Ctx.Node) : Nat := Ctx.undefinedProps s fuel (topOf s) (some doc)
+
+def merklizeDoc (canon : String → Option String) (h : Hasher) (safe : Bool) (s : Ctx.Schema) (fuel : Nat) (doc : Ctx.Node)
+    (quads : Dataset) : Except String Mz.Merklizer :=
+  merklize canon h safe ⟨quads, undefinedOf s fuel doc⟩
 
 end Gsp.Safe
